@@ -396,3 +396,41 @@ func vfH_C08_timeout() {
 	// another connection is unaffected
 	vfrt.Assert(c2.readHeader() == nil && !other.closed, "timeout/other-connection-unaffected")
 }
+
+//vf:assume C08-two-connections: two connections are accepted one after the other, each with a well-formed v2 TCP6 header of symbolic addresses and ports and 0..3 symbolic TLV bytes; sync.Pool is modelled as handing back what was put last
+
+//vf:harness property=C08 nopanic reach=two-connections
+func vfH_C08_two_conns() {
+	mk := func(label string) ([]byte, []byte) {
+		tlv := vfrt.Choice(label+"-tlv-len", 4)
+		body := vfrt.Bytes(label+"-body", 36+tlv)
+		data := append([]byte{}, V2Identifier...)
+		data = append(data, 0x21, 0x21, byte(len(body)>>8), byte(len(body)))
+		return append(data, body...), body
+	}
+	d1, b1 := mk("first")
+	d2, b2 := mk("second")
+	vfrt.Assume(b1[0] != b2[0] && b1[16] != b2[16]) // different addresses
+	c1 := &Conn{Conn: vfNewConn(d1)}
+	r1, l1 := c1.RemoteAddr(), c1.LocalAddr()
+	vfrt.Assert(c1.headerErr == nil, "two/first-header-accepted")
+	c2 := &Conn{Conn: vfNewConn(d2)}
+	r2, l2 := c2.RemoteAddr(), c2.LocalAddr()
+	vfrt.Assert(c2.headerErr == nil, "two/second-header-accepted")
+	vfrt.Reach("two-connections")
+	port := func(b []byte, i int) int { return int(b[i])<<8 | int(b[i+1]) }
+	// each connection keeps reporting its own header's addresses, whatever is parsed afterwards
+	vfrt.Assert(vfSameIP6(r1, b1[0:16], port(b1, 32), false) && vfSameIP6(l1, b1[16:32], port(b1, 34), false), "two/first-connection-addresses-unaffected-by-a-later-header")
+	vfrt.Assert(vfSameIP6(c1.RemoteAddr(), b1[0:16], port(b1, 32), false), "two/first-connection-addresses-unaffected-by-a-later-header")
+	vfrt.Assert(vfSameIP6(r2, b2[0:16], port(b2, 32), false) && vfSameIP6(l2, b2[16:32], port(b2, 34), false), "two/second-connection-reports-its-own-header")
+	h1, _ := c1.Header()
+	ok := len(h1.RawTLVs) == len(b1)-36
+	if ok {
+		for i, x := range h1.RawTLVs {
+			if x != b1[36+i] {
+				ok = false
+			}
+		}
+	}
+	vfrt.Assert(ok, "two/first-connection-tlvs-unaffected-by-a-later-header")
+}
